@@ -17,7 +17,10 @@ class EpollRemoteQueue(Unit):
     """Projection of a k1_epoll_rq run onto RemoteQueue.  Owned: every access to remoteQueue_.head_
     ('rq.head'; the only unnamed pointer ever stored there is run()'s stop operation -> STOP), the
     syscalls on the eventfd (write / the epoll_wait that returns it / read) and the actions
-    'exec <item>' and 'run returned'.  Thread ids are the same in the implementation and the model
+    'exec <item>' and 'run returned'; of the stop source of run()'s token (C03's protocol) only the two
+    linearisation points: the registration of run()'s callback by the I/O thread (its lock CAS
+    0->2 = 'src REG'; an observed stop bit instead = 'src REG-INLINE') and the stopper's stop-bit
+    CAS 0->3 ('src SET').  Thread ids are the same in the implementation and the model
     (0 = I/O thread, 1..k producers, k+1 stopper)."""
     name = "io_epoll_context/RemoteQueue"; driver = "k1_epoll_rq"; cfg = "shim17"; handler = "remotequeue"
     bound = {"quick": 2, "thorough": 3}
@@ -33,14 +36,29 @@ class EpollRemoteQueue(Unit):
 
     def model_args(self, prog):
         n, items, stop = int(prog[0]), prog[1], prog[2]
-        return "%s %s" % (",".join([items] * n) if n else "-", "pre" if stop == "pre" else "thread")
+        return "%s %s" % (",".join([items] * n) if n else "-", "0 1" if stop == "pre" else "1 0")
 
     def project(self, prog, events):
         out = []
+        running = False      # the I/O thread is inside run()
+        reg_done = False     # run()'s callback registration has been decided
         for e in events:
             m = re.match(r"t(\d+) (\S+) ?(.*)$", e)
             t, n, r = int(m.group(1)), m.group(2), m.group(3)
-            if n == "rq.head":
+            if n == "!run" and r == "begin":
+                running = True
+            elif n == "src":
+                if t == 0:
+                    if running and not reg_done:
+                        if re.match(r"C\.\S+ 0->2 ok", r):
+                            out.append((0, "src REG")); reg_done = True
+                        else:
+                            mm = re.match(r"L\.\S+ (\d+)$", r) or re.match(r"C\.\S+ (\d+)->\d+ fail", r)
+                            if mm and int(mm.group(1)) & 1:
+                                out.append((0, "src REG-INLINE")); reg_done = True
+                elif re.match(r"C\.\S+ 0->3 ok", r):
+                    out.append((t, "src SET"))
+            elif n == "rq.head":
                 out.append((t, "rq.head " + re.sub(r"#\d+", "STOP", r)))
             elif n == "!write" and r.startswith("evfd "):
                 out.append((t, "!write evfd"))
